@@ -57,7 +57,10 @@ Record start_opts := {
     End(WithTimestamp(ts)), [OEnd 0] is End() (wall clock, not compared).
     [ORecordError … stack] with [stack] set is RecordError(err, WithStackTrace(true))
     (the stack text is not compared, see [stack_attr]); [ORead] is a read of the
-    live span through its ReadOnlySpan accessors in the middle of the program. *)
+    live span through its ReadOnlySpan accessors in the middle of the program.
+    [OEndPanic typ msg stack ts] is End(WithStackTrace(stack), WithTimestamp(ts))
+    running as a deferred call while the goroutine panics with a value of Go
+    type [typ] printing as [msg]. *)
 Inductive op :=
 | OSetAttrs (kvs : list kv)
 | OAddEvent (name : bytes) (ts : N) (kvs : list kv)
@@ -66,7 +69,8 @@ Inductive op :=
 | OSetStatus (code : N) (desc : bytes)
 | OSetName (name : bytes)
 | ORead
-| OEnd (ts : N).
+| OEnd (ts : N)
+| OEndPanic (typ msg : bytes) (stack : bool) (ts : N).
 
 (** What a span processor / exporter can read from the ended span. *)
 Record export := {
@@ -190,6 +194,8 @@ Fixpoint before_end (ops : list op) : list op :=
   match ops with
   | [] => []
   | OEnd _ :: _ => []
+  (* ending while panicking first records the panic as an exception event (wall-clock time, no user attributes) *)
+  | OEndPanic typ msg st _ :: _ => [ORecordError typ msg 0 [] st]
   | o :: r => o :: before_end r
   end.
 
@@ -212,6 +218,7 @@ Fixpoint end_time_of (ops : list op) : N :=
   match ops with
   | [] => 0
   | OEnd ts :: _ => ts
+  | OEndPanic _ _ _ ts :: _ => ts
   | _ :: r => end_time_of r
   end.
 
@@ -228,6 +235,13 @@ Definition run_spec (lim : limits) (so : start_opts) (name0 : bytes) (ops : list
      x_events := fst e; x_evdropped := snd e;
      x_links := fst k; x_lkdropped := snd k;
      x_kind := kind_of (so_kind so); x_start := so_start so; x_end := end_time_of ops |}.
+
+(** ** Delivery: the span is handed to the span processors exactly once, at
+    the first End, and what is handed over is the exported view above. *)
+Definition is_end (o : op) : bool := match o with OEnd _ | OEndPanic _ _ _ _ => true | _ => false end.
+Definition ends (ops : list op) : bool := existsb is_end ops.
+Definition exports_spec (lim : limits) (so : start_opts) (name0 : bytes) (ops : list op) : list export :=
+  if ends ops then [run_spec lim so name0 ops] else [].
 
 (** ** Closed forms (what the laws are stated against) *)
 
